@@ -463,6 +463,82 @@ func gatedReconnect(c *vh.Ctx, k int) {
 	}
 }
 
+// scenario: two OVERLAPPING reconnect loops. Loop A (started by the drop of generation 0) publishes
+// generation 1 and is held at the end of tr.Start; generation 1 selects and is dropped by its peer,
+// so the supervisor starts loop B, which is held at its dial. Then A is released and exits (its
+// deferred decrement runs) while B is provably still running: the reconnecting gauge must stay
+// positive; it must be zero at the next quiescent Selected point and after Close.
+func overlapLoops(c *vh.Ctx) {
+	s := newS(c, "overlap-loops", genx.DefaultOptions(), nil)
+	defer s.finish()
+	e := s.e
+	holdA, holdB := make(chan struct{}), make(chan struct{})
+	aHeld, bHeld := make(chan struct{}, 1), make(chan struct{}, 1)
+	var relA, relB sync.Once
+	releaseA := func() { relA.Do(func() { close(holdA) }) }
+	releaseB := func() { relB.Do(func() { close(holdB) }) }
+	defer releaseA()
+	defer releaseB()
+	e.AfterStart = func(n int, err error) {
+		if n == 2 && err == nil { // loop A's Start of generation 1 has completed
+			aHeld <- struct{}{}
+			<-holdA
+		}
+	}
+	e.DialGate = func(g int) {
+		if g == 2 { // loop B about to dial generation 2
+			bHeld <- struct{}{}
+			<-holdB
+		}
+	}
+	if !s.must(e.Open(5*time.Second) == nil, "open") {
+		return
+	}
+	bg := context.Background()
+	s.wait(e.Start(genx.KSyncW, bg))
+	s.quiesce(true, "before")
+	m := e.Conn.Metrics()
+	e.Peer(0).Close() // involuntary drop of generation 0 -> loop A
+	select {
+	case <-aHeld:
+	case <-time.After(10 * time.Second):
+		s.must(false, "loop A held at the end of tr.Start")
+		return
+	}
+	if !s.must(e.WaitSelected(1, 10*time.Second), "generation 1 selected while loop A is inside Start") {
+		return
+	}
+	if v := m.Reconnecting(); v <= 0 {
+		s.fail("reconnecting gauge not positive while a reconnect loop is inside tr.Start", fmt.Sprintf("value=%d", v))
+	}
+	e.Peer(1).Close() // generation 1 dropped by its peer -> loop B
+	select {
+	case <-bHeld:
+	case <-time.After(10 * time.Second):
+		s.must(false, "loop B reached its dial")
+		return
+	}
+	if v := m.Reconnecting(); v <= 0 {
+		s.fail("reconnecting gauge not positive while two reconnect loops run", fmt.Sprintf("value=%d", v))
+	}
+	releaseA() // A counts the re-establishment of generation 1 and exits
+	s.must(waitFor(5*time.Second, func() bool { return m.Reconnects() == 1 }), "loop A counted its reconnect")
+	s.reconnects = 1
+	// loop B is still held at its dial: the gauge must read positive at every instant
+	for t0 := time.Now(); time.Since(t0) < 30*time.Millisecond; time.Sleep(200 * time.Microsecond) {
+		if v := m.Reconnecting(); v <= 0 {
+			s.fail("reconnecting gauge not positive while a reconnect loop runs (an overlapping loop exited)", fmt.Sprintf("value=%d", v))
+			break
+		}
+	}
+	releaseB()
+	if s.must(e.WaitSelected(2, 10*time.Second), "generation 2 selected") {
+		s.reconnects = 2
+		s.wait(e.Start(genx.KSyncW, bg))
+		s.quiesce(true, "after")
+	}
+}
+
 // scenario: OpenBackground against a peer whose first k dials fail: the initial-connect retry loop
 // holds the reconnecting gauge positive, is NOT a reconnect, and sends meanwhile are refused.
 func coldConnect(c *vh.Ctx, k int) {
@@ -745,6 +821,7 @@ func main() {
 		gatedReconnect(c, 0)
 		gatedReconnect(c, 1+r.Intn(2))
 		coldConnect(c, 1+r.Intn(2))
+		overlapLoops(c)
 		closeReopen(c)
 		if s1() {
 			closeAfterAck(c, 10)
